@@ -414,13 +414,17 @@ def _build_cp_atom_payload(sequence, restrict, payload_form=False, interner=None
     # and that everything is specific.
 
     lget = locked.get
+    touched = set()
 
     for key, neg, pos in reversed(l):
-        # only grab the deltas; if a + becomes a specific -
-        neg = tuple(x for x in neg if lget(x, True))
-        pos = tuple(x for x in pos if not lget(x, False))
-        if neg or pos:
-            new_l.append(f(key, neg, pos))
+        # only grab the deltas; if a + becomes a specific -.  A flag an earlier
+        # specific entry already touched may differ from the global state.
+        new_neg = tuple(x for x in neg if x in touched or lget(x, True))
+        new_pos = tuple(x for x in pos if x in touched or not lget(x, False))
+        touched.update(neg)
+        touched.update(pos)
+        if new_neg or new_pos:
+            new_l.append(f(key, new_neg, new_pos))
 
     return tuple(new_l)
 
